@@ -266,14 +266,34 @@ def free_run(rng: random.Random, idx: int, n_threads: int, extra: bool = False):
 
     os_conv = _objser(OS, os_members)
 
-    def conv_calls(schema_first: bool):
+    import threading as _threading
+
+    gates = [_threading.Barrier(n_threads), _threading.Barrier(n_threads)]
+
+    def meet(gate):
+        if gate is not None:
+            try:
+                gate.wait(5)
+            except _threading.BrokenBarrierError:
+                pass
+
+    def conv_calls(schema_first: bool, concurrent: bool):
         a = lambda: json.dumps(serialization_schema(_List[AM]), sort_keys=True)  # noqa: E731
         b = lambda: repr(serialize(_List[AM], [AM(1), AM(2)]))  # noqa: E731
         c = lambda: json.dumps(serialization_schema(OS, conversion=os_conv), sort_keys=True)  # noqa: E731
         d = lambda: repr(serialize(OS, OS(1, "abc"), conversion=os_conv))  # noqa: E731
         res = {}
-        for k, fn in ((("a", a), ("c", c), ("b", b), ("d", d)) if schema_first else (("d", d), ("b", b), ("c", c), ("a", a))):
-            res[k] = fn()
+        # the FIRST resolutions (slow: the lazy conversion / the deferred members sleep) are entered by all threads together
+        meet(gates[0] if concurrent else None)
+        res["a"] = a()
+        meet(gates[1] if concurrent else None)
+        if schema_first:
+            res["c"] = c()
+            res["d"] = d()
+        else:
+            res["d"] = d()
+            res["c"] = c()
+        res["b"] = b()
         return [res[k] for k in "abcd"] + [json.dumps(serialization_schema(OS, conversion=os_conv), sort_keys=True)]
 
     def lz_calls(schema_first: bool):
@@ -286,12 +306,12 @@ def free_run(rng: random.Random, idx: int, n_threads: int, extra: bool = False):
             res[k] = fn()
         return [res[k] for k in "abcd"] + [repr(serialize([LZ(5)]))]
 
-    def calls(names, schema_first=False):
+    def calls(names, schema_first=False, concurrent=False):
         """deserialize, then serialize the result through the typed method and through the Any method
         (serialize(obj) dispatches on the runtime class: one shared AnyMethod per option vector)."""
         # first use of the lazily converted class, the schema side and the (de)serialization side in a different
         # order from one thread to the next
-        out = (conv_calls(schema_first) + lz_calls(schema_first)) if extra else []
+        out = (conv_calls(schema_first, concurrent) + lz_calls(schema_first)) if extra else []
         for c in names:
             obj = deserialize(getattr(mod, c), sample(c))
             out += [repr(obj), repr(serialize(obj)), repr(serialize(getattr(mod, c), obj)), repr(serialize([obj, 1]))]
@@ -303,7 +323,7 @@ def free_run(rng: random.Random, idx: int, n_threads: int, extra: bool = False):
 
     def body(names, k=0):
         def run():
-            return calls(names, schema_first=bool(k % 2))
+            return calls(names, schema_first=bool(k % 2), concurrent=True)
         return run
 
     with sched.Installed(ctl) as inst:
